@@ -190,7 +190,6 @@ Theorem C02_create_solid_split_extract_partial :
   Forall2 carries jobs (create_from_tree c order t) -> Forall (wf_job E compress verify pw) jobs ->
   Forall phc_job jobs ->
   wf_ctx verify ctx pw -> phc_ctx cfg ctx ->
-  small_pieces E compress cfg ctx (solid_writes (map (build_job E compress) jobs)) ->
   Split.write_split max
     [map of_c (ser_solid (build_solid E compress cfg ctx [] (solid_writes (map (build_job E compress) jobs))))] = Ok parts ->
   Forall (fun f => Split.file_size f <= max /\ len (ser_pfile f) = Split.file_size f) parts /\
@@ -219,7 +218,6 @@ Check C02_create_solid_split_extract_partial :
   Forall2 carries jobs (create_from_tree c order t) -> Forall (wf_job E compress verify pw) jobs ->
   Forall phc_job jobs ->
   wf_ctx verify ctx pw -> phc_ctx cfg ctx ->
-  small_pieces E compress cfg ctx (solid_writes (map (build_job E compress) jobs)) ->
   Split.write_split max
     [map of_c (ser_solid (build_solid E compress cfg ctx [] (solid_writes (map (build_job E compress) jobs))))] = Ok parts ->
   Forall (fun f => Split.file_size f <= max /\ len (ser_pfile f) = Split.file_size f) parts /\
@@ -349,7 +347,6 @@ Example C02_split_premises_satisfiable : exists parts sparts,
   wf_tree tx_tree /\ tree_ok tx_tree /\ (forall o, walk_order_ok tx_c o tx_tree tx_order) /\
   Split.write_split 150 tx_split_input = Ok parts /\ length parts = 7%nat /\
   wf_ctx tx_verify tx_ctx tx_pw /\ phc_ctx tx_cfg tx_ctx /\
-  small_pieces real_E_of tx_compress tx_cfg tx_ctx (solid_writes (map (build_job real_E_of tx_compress) tx_jobs)) /\
   Split.write_split 300 [map of_c (ser_solid tx_solid)] = Ok sparts /\ length sparts = 5%nat.
 Proof. exact split_premises. Qed.
 Print Assumptions C02_split_premises_satisfiable.
